@@ -66,6 +66,7 @@ def plan_workers(mod, tier, only_sub=None):
                 if ln not in s.lanes:
                     continue
                 n = s.quick if tier == "quick" else s.thorough
+                n = max(1, int(n * float(os.environ.get("VERIF_SCALE", "1"))))  # development aid only
                 if len(s.lanes) == 2:
                     frac = s.f32_fraction if ln == "f32" else 1.0 - s.f32_fraction
                 else:
